@@ -1101,6 +1101,20 @@ impl<'ast, 'p> Visit<'ast> for Ctx<'p> {
         }
     }
 
+    // R27: `const X: &T` / `static X: &T` (items and impl items): the elided lifetime is 'static; inside verus!{} it must be written
+    fn visit_item_const(&mut self, c: &'ast syn::ItemConst) {
+        self.static_ref(&c.ty);
+        visit::visit_item_const(self, c);
+    }
+    fn visit_item_static(&mut self, c: &'ast syn::ItemStatic) {
+        self.static_ref(&c.ty);
+        visit::visit_item_static(self, c);
+    }
+    fn visit_impl_item_const(&mut self, c: &'ast syn::ImplItemConst) {
+        self.static_ref(&c.ty);
+        visit::visit_impl_item_const(self, c);
+    }
+
     fn visit_expr_binary(&mut self, b: &'ast syn::ExprBinary) {
         // R4b: X == b"lit" / X != b"lit"  -> vx_eq_bytes
         let is_bytes = |e: &syn::Expr| {
@@ -1493,6 +1507,15 @@ impl<'ast, 'p> Visit<'ast> for Ctx<'p> {
 }
 
 impl<'p> Ctx<'p> {
+    fn static_ref(&mut self, ty: &syn::Type) {
+        if let syn::Type::Reference(r) = ty {
+            if r.lifetime.is_none() {
+                let (s, _) = br(r.and_token.span());
+                self.insert(s + 1, "'static ".into());
+                self.log(s, "R27", "const/static of reference type: elided lifetime written as 'static");
+            }
+        }
+    }
     fn handle_macro(&mut self, mac: &syn::Macro, (s, e): (usize, usize), stmt: bool) {
         if !self.in_verified_fn() {
             return;
